@@ -338,16 +338,20 @@ def relayout(obj, how):
     """The same values in another memory layout (Fortran order / a strided view of a larger array): writers may not depend on it."""
     def conv(a):
         a = np.asarray(a)
-        if a.ndim < 2 or a.dtype.kind not in "fi":
+        if (a.ndim < 2 and how != 3) or a.dtype.kind not in "fi":
             return a
         if how == 1:
             return np.asfortranarray(a)
+        if how == 3:
+            a = np.array(a)
+            a.flags.writeable = False        # a read-only array (e.g. memory-mapped data): writers only read
+            return a
         big = np.zeros(tuple(2 * n for n in a.shape), dtype=a.dtype)
         view = big[tuple(slice(None, None, 2) for _ in a.shape)]
         view[...] = a
         return view
     from iodata.utils import Cube
-    for name in ("atcoords", "atgradient", "athessian", "cellvecs"):
+    for name in ("atcoords", "atgradient", "athessian", "cellvecs", "atmasses", "atcorenums"):
         if getattr(obj, name, None) is not None:
             setattr(obj, name, conv(getattr(obj, name)))
     if obj.cube is not None:
@@ -373,9 +377,9 @@ def roundtrip(task):
         with warnings.catch_warnings():
             warnings.simplefilter("ignore")
             obj = build(fmt, rng, natom, present, mag)
-            if seed % 3:
-                obj = relayout(obj, seed % 3)
-            ev["layout"] = ["C", "F", "strided"][seed % 3]
+            if seed % 4:
+                obj = relayout(obj, seed % 4)
+            ev["layout"] = ["C", "F", "strided", "readonly"][seed % 4]
             path = os.path.join(tmp, O.SUFFIX[real_fmt(fmt)])
             try:
                 api.dump_one(obj, path, fmt=real_fmt(fmt), **io_kwargs(fmt))
